@@ -256,6 +256,11 @@ func (r *recorder) run(fn string, pl listPlan, eth1Hash common.Root, eth1Time co
 				vals[i] = phase0.KickstartValidatorData{Pubkey: deps[i].Data.Pubkey, WithdrawalCredentials: deps[i].Data.WithdrawalCredentials, Balance: deps[i].Data.Amount}
 				if k, ok := r.ks.KeyOf(deps[i].Data.Pubkey); ok {
 					keys[i] = r.ks.SecretBytes(k)
+					// the helper signs the deposit message itself: the deposit it builds carries the proof of
+					// possession under the fork-agnostic deposit domain, whatever signature the list had
+					usedDeps[i].Data = deps[i].Data
+					usedDeps[i].Data.Signature = r.ks.Sign1(k, deps[i].Data.MessageRoot(), chain.Domain{Type: common.DOMAIN_DEPOSIT, Version: spec.GENESIS_FORK_VERSION})
+					continue
 				} else {
 					keys[i] = r.ks.SecretBytes(0) // a key that does not match: zrnt must refuse
 					ev.KeyMismatch = true
